@@ -21,6 +21,7 @@ struct cfg {
   int bound;
   int free_drops;
   int allow_dup, allow_reorder;
+  int burst; /* the application submits all (Confirmable) requests back to back; NSTART (1) holds the later ones */
 };
 
 struct req {
@@ -43,7 +44,26 @@ static coap_session_t *cs;
 static coap_address_t srv_addr, cli_addr;
 static struct req reqs[3];
 static int next_req;
-static coap_async_t *pending_async;
+static coap_async_t *pending_asyncs[4]; /* FIFO of registered, not yet triggered open-ended async entries */
+static int npending;
+#define pending_async (npending ? pending_asyncs[0] : NULL)
+static int
+is_pending(coap_async_t *a) {
+  for (int i = 0; i < npending; i++)
+    if (pending_asyncs[i] == a)
+      return 1;
+  return 0;
+}
+static void
+drop_pending(coap_async_t *a) {
+  for (int i = 0; i < npending; i++)
+    if (pending_asyncs[i] == a) {
+      for (int j = i + 1; j < npending; j++)
+        pending_asyncs[j - 1] = pending_asyncs[j];
+      npending--;
+      return;
+    }
+}
 static int srv_handler_calls;
 static int srv_handler_calls_for[3]; /* application-level processing runs per request (not counting the async re-entry) */
 
@@ -157,16 +177,17 @@ hnd(coap_resource_t *resource, coap_session_t *session, const coap_pdu_t *reques
       a = coap_register_async(session, request, C->style == ST_ASYNC_DELAY ? COAP_TICKS_PER_SECOND : 0);
       if (a) {
         if (C->style == ST_ASYNC_TRIG)
-          pending_async = a;
+          if (npending < 4)
+            pending_asyncs[npending++] = a;
         vx_observe("   server: async registered");
         return; /* no code => empty ACK for CON */
       }
-    } else if (a == pending_async) {
+    } else if (is_pending(a)) {
       /* the handler runs again for an exchange whose open-ended async entry the application has not triggered yet: the
        * only way in is a retransmitted copy of the request that the library should have answered with an empty ACK */
       vx_fail("server-handler:retransmitted-request-during-pending-async",
               "the request handler was invoked again for a request whose async entry (delay 0) is still pending and was not triggered");
-      pending_async = NULL;
+      drop_pending(a);
     }
   }
   coap_pdu_set_code(response, coap_pdu_get_code(request) == COAP_REQUEST_CODE_PUT ? COAP_RESPONSE_CODE_CHANGED : COAP_RESPONSE_CODE_CONTENT);
@@ -372,7 +393,9 @@ step(void) {
   int n = 0;
   unsigned tmo = ns_prepare_all();
   int nf = ns_inflight_count();
-  if (nf > 0)
+  if (C->burst && next_req < C->nreq)
+    ev[n].kind = EV_APP, ev[n++].idx = 0;
+  else if (nf > 0)
     ev[n].kind = EV_DELIVER, ev[n++].idx = 0;
   else if (pending_async)
     ev[n].kind = EV_TRIGGER, ev[n++].idx = 0; /* the server application answers before any client timer */
@@ -424,8 +447,11 @@ step(void) {
     break;
   case EV_TRIGGER:
     vx_observe("   server app: coap_async_trigger");
-    coap_async_trigger(pending_async);
-    pending_async = NULL;
+    {
+      coap_async_t *a = pending_async;
+      drop_pending(a);
+      coap_async_trigger(a);
+    }
     break;
   case EV_TIMER:
     ns_advance((uint64_t)ev[c].idx);
@@ -442,7 +468,7 @@ run(void *arg) {
   ns_init();
   memset(reqs, 0, sizeof reqs);
   next_req = 0;
-  pending_async = NULL;
+  npending = 0;
   srv_handler_calls = 0;
   memset(srv_handler_calls_for, 0, sizeof srv_handler_calls_for);
   exp_mid = -1;
@@ -529,8 +555,8 @@ static int ncfgs;
 static void
 add(struct cfg c) {
   cfgs = realloc(cfgs, sizeof *cfgs * (size_t)(ncfgs + 1));
-  snprintf(c.name, sizeof c.name, "c07:%s,n=%d,k=%s,tkl=%d%d%d,fail=%d,fd=%d,dup=%d,ro=%d,B=%d", style_names[c.style], c.nreq, c.kinds,
-           c.tkls[0], c.tkls[1], c.tkls[2], c.fail_mask, c.free_drops, c.allow_dup, c.allow_reorder, c.bound);
+  snprintf(c.name, sizeof c.name, "c07:%s,n=%d,k=%s,tkl=%d%d%d,fail=%d,fd=%d,dup=%d,ro=%d,burst=%d,B=%d", style_names[c.style], c.nreq, c.kinds,
+           c.tkls[0], c.tkls[1], c.tkls[2], c.fail_mask, c.free_drops, c.allow_dup, c.allow_reorder, c.burst, c.bound);
   cfgs[ncfgs++] = c;
 }
 
@@ -562,6 +588,14 @@ main(int argc, char **argv) {
       add(c);
     }
   }
+  /* back-to-back submission: the later Confirmable requests are held by NSTART until the earlier exchange ends, however
+   * it ends (piggybacked response, separate response after a lost empty ACK, give-up) */
+  for (int st = 0; st <= ST_RAW_ACK_CON; st++)
+    for (int s = 0; s < 2; s++) {
+      struct cfg c = {.style = st, .nreq = s ? 3 : 2, .tkls = {2, 8, 0}, .bound = T ? 3 : 2, .allow_dup = 0, .allow_reorder = 1, .burst = 1};
+      strcpy(c.kinds, s ? "GPG" : "GG");
+      add(c);
+    }
   /* all drop subsets of the first 10 datagrams: piggybacked style (where every subset must end in response or NACK) */
   for (int s = 0; s < 2; s++) {
     struct cfg c = {.style = ST_PIGGY, .nreq = 1, .tkls = {2, 0, 0}, .bound = 0, .free_drops = 10};
